@@ -319,7 +319,9 @@ def inDomain (i : Input) : Bool :=
   levelOK i &&
   (i.pluginAttr == .absent || i.pluginAttr == .named) &&
   (i.minVerAttr == .absent || i.minVerAttr == .valid) &&
-  i.extAttrs.all (·.critical)
+  -- every other extended attribute is critical - or no plugin is named at all: then a
+  -- non-critical attribute is nobody's business and must not be a reason to reject
+  i.extAttrs.all (fun a => a.critical || i.pluginAttr == .absent)
 
 def named (i : Input) : Bool := i.pluginAttr == .named
 
